@@ -111,4 +111,34 @@ theorem C19_inner_unchanged (d : Nat) (i : Inner) (ps : List Nat) (k t : Nat) (b
 example : adequate 20 ⟨some 20, true⟩ [0, 3, 20, 25] = true ∧
     (runPolls 20 ⟨some 20, true⟩ [0, 3, 20, 25] 0).1 = some (.inner true, 20) := by decide
 
+/-! ## Resolved by the deadline under every schedule -/
+
+/-- a poll at or after the deadline is never `Pending` -/
+theorem pollOnce_late (d : Nat) (i : Inner) (m : Nat) (hm : d ≤ m) : ∃ o, pollOnce d i m = some o := by
+  unfold pollOnce
+  by_cases hr : innerReady i m = true
+  · exact ⟨.inner i.ok, by simp [hr]⟩
+  · exact ⟨.timeout, by simp [hr, hm]⟩
+
+/-- **C19 (resolved by the deadline, every schedule).** Whatever the polls before it (any order, spurious ones, none
+    at the decisive instants): the first poll at or after the deadline finds the future resolved - it resolved at
+    that poll or at an earlier one, and is never polled again. -/
+theorem C19_late_poll_resolves (d : Nat) (i : Inner) (pre post : List Nat) (m k : Nat) (hm : d ≤ m) :
+    ∃ o t, (runPolls d i (pre ++ m :: post) k).1 = some (o, t) ∧ t ∈ pre ++ [m] ∧
+      (runPolls d i (pre ++ m :: post) k).2 ≤ k + pre.length + 1 := by
+  induction pre generalizing k with
+  | nil =>
+    obtain ⟨o, ho⟩ := pollOnce_late d i m hm
+    exact ⟨o, m, by simp [runPolls, ho], by simp, by simp [runPolls, ho]⟩
+  | cons p pre ih =>
+    simp only [List.cons_append, runPolls]
+    cases hp : pollOnce d i p with
+    | some o => exact ⟨o, p, by simp, by simp, by simp⟩
+    | none =>
+      obtain ⟨o, t, h1, h2, h3⟩ := ih (k + 1)
+      exact ⟨o, t, h1, by simp at h2 ⊢; exact Or.inr h2, by simp at h3 ⊢; omega⟩
+
+/-- non-vacuity: descending, spurious polls; the inner future would complete only after the deadline -/
+example : (runPolls 20 ⟨some 30, true⟩ [7, 3, 21, 40] 0) = (some (.timeout, 21), 3) := by decide
+
 end Hd.Timeout
